@@ -171,6 +171,15 @@ where
         ctx.run("bit_u", ctx.budget(QUICK / 2, FACTOR), (gen::pattern(sh), gen::bit_index(sh)), bit_read::<U>);
         ctx.run("bit_i", ctx.budget(QUICK / 2, FACTOR), (gen::pattern(sh), gen::bit_index(sh)), bit_read::<I>);
     }));
+    jobs.push(Job::new(job_name::<U>("sweep"), move |ctx| {
+        let full = ctx.tier() == vlib::Tier::Thorough;
+        ctx.enumerate("counts_u", "2^k - 1, 2^k, 2^k + 1, negations, complements for every k", position_values(sh, full), counts::<U>);
+        ctx.enumerate("counts_i", "2^k - 1, 2^k, 2^k + 1, negations, complements for every k", position_values(sh, full), counts::<I>);
+        ctx.enumerate("next_pow2", "2^k - 1, 2^k, 2^k + 1, ... for every k", position_values(sh, full), next_pow2::<U>);
+        let w = sh.bits();
+        let idx = move || positions(sh, full).into_iter().flat_map(move |i| [(Pat(vec![0u8; sh.bytes]), i, true), (Pat(vec![0xffu8; sh.bytes]), i, false), (Pat(vec![0x5au8; sh.bytes]), i, i % 2 == 0)].into_iter());
+        ctx.enumerate("setbit", "set_bit / bit / power_of_two at EVERY index on three patterns", idx(), bit_setbit_pow2::<U>);
+    }));
     jobs.push(Job::new(job_name::<U>("next_pow2"), move |ctx| {
         ctx.run("next_pow2", ctx.budget(QUICK, FACTOR), pow2_neighbourhood(sh), next_pow2::<U>);
     }));
@@ -215,7 +224,7 @@ fn main() {
     runner::main(
         Property {
             id: "C06",
-            rule: "Patterns come from the structured generators (digit-aligned runs of 0/1 bits, extreme digits, boundary values, short values) and from the neighbourhood of powers of two (2^k + {-2..2}, exact bit length k+1); indices from the structural boundary table reduced below BITS. Oracle: straight loops over the Vec<bool> of the pattern (counts, bit, set_bit = 'bit i equals v and every other bit unchanged', byte/bit reversal, involutions), 2^k from the reference integer, least power of two >= x by bit length. NON-TRIVIAL: the pattern has a whole all-zero/all-one digit adjacent to a partial digit in a scan direction, or is all-zero/all-one, or the bit index lies beyond the first digit, or (next power of two) the value is within one bit of the top or longer than one digit. distinct = distinct (profile, job, inputs) by 64-bit hash. Completely enumerated: the 8-bit configuration (values, indices, operand pairs) and all 65 536 values of both 16-bit configurations for the unary operations.",
+            rule: "Patterns come from the structured generators (digit-aligned runs of 0/1 bits, extreme digits, boundary values, short values) and from the neighbourhood of powers of two (2^k + {-2..2}, exact bit length k+1); indices from the structural boundary table reduced below BITS. Oracle: straight loops over the Vec<bool> of the pattern (counts, bit, set_bit = 'bit i equals v and every other bit unchanged', byte/bit reversal, involutions), 2^k from the reference integer, least power of two >= x by bit length. NON-TRIVIAL: the pattern has a whole all-zero/all-one digit adjacent to a partial digit in a scan direction, or is all-zero/all-one, or the bit index lies beyond the first digit, or (next power of two) the value is within one bit of the top or longer than one digit. distinct = distinct (profile, job, inputs) by 64-bit hash. Completely enumerated: the 8-bit configuration (values, indices, operand pairs) and all 65 536 values of both 16-bit configurations for the unary operations. A deterministic SWEEP additionally enumerates, per configuration, position-specific inputs (2^k - 1, 2^k, 2^k + 1 with their negations and complements; carry / borrow chains and power-of-two products ending at every bit position k; every shift / rotate amount; every bit index; every float exponent) - all positions on types up to 1088 bits, a sparse selection of a few hundred positions on wider types in the quick tier, all positions in the thorough tier.",
             assumptions: &[
                 "digits()/from_digits()/to_bits()/from_bits() are the trusted observation channel",
                 "bit/set_bit/power_of_two are only called with index < BITS (documented to panic otherwise); set_bit and power_of_two exist on unsigned types only",
